@@ -71,7 +71,7 @@ def check(ctx, run):
     if not ok:
         run.fail(Finding("C06.R1", cfi.qualname, str(v)[:120], "for quadratic CVaR the cash amount is minus the risk", file=str(prog.modules[cfi.module].path), line=cfi.node.lineno))
     # ---- R2 default search
-    dfi = prog.functions.get(L + "HedgeLoss.cash")
+    dfi = prog.method(L + "HedgeLoss.cash")
     if dfi is None:
         raise AnalysisError("anchor vanished: HedgeLoss.cash")
     default_search_rule(ctx, run, dfi)
@@ -136,14 +136,20 @@ def check(ctx, run):
                     problems.append("the P&L handed to cash() is not portfolio minus derivative.payoff()")
                 if not has_model(inp) or is_payoff(inp):
                     problems.append("input is not the portfolio value")
-            v = r["value"]
+            def same_values(t_):
+                # wrappers that keep every entry (the dtype they produce is C17's business)
+                while isinstance(t_, Op) and t_.op in ("to", "clone", "contiguous", "float", "double") and t_.args and isinstance(t_.args[0], (Op, Sym)):
+                    t_ = t_.args[0]
+                return t_
+
+            v = same_values(r["value"])
             core = v
             if nt > 1:
                 if not (isinstance(v, Op) and v.op == "mean"):
                     problems.append("n_times evaluations are not averaged")
                 else:
-                    st = v.args[0]
-                    core = st.args[0][0] if isinstance(st, Op) and st.op == "stack" else v
+                    st = same_values(v.args[0])
+                    core = same_values(st.args[0][0]) if isinstance(st, Op) and st.op == "stack" else v
             if not (isinstance(core, Op) and core.op == "neg" and isinstance(core.args[0], Op) and core.args[0].op == "call" and str(core.args[0].args[0]) == "criterion.cash"):
                 problems.append(f"value is {str(core)[:60]}, expected -criterion.cash(...)")
         problems = sorted(set(problems))
